@@ -75,6 +75,25 @@ pub fn check_program(prog: &Program, rendered: &[Rendered], tape: &mut Tape, den
             return;
         }
     };
+    // One case in three: a module is first opened with another layout of the same module, the
+    // server evaluates it, and one didChange with two ranged changes (in document order) brings the
+    // open document back to the text on disk before any rename is asked for.
+    if tape.chance(1, 3) {
+        let m = tape.choose(rendered.len());
+        let other = if tape.chance(1, 2) { render_trivia(prog, tape) } else { render_plain(prog) };
+        if other[m].text != rendered[m].text {
+            let uri = ws.uri(&rendered[m].file);
+            let main = ws.uri(&rendered[0].file);
+            let edits = crate::lspcheck::two_edits(&other[m].text, &rendered[m].text, (tape.raw(), tape.raw()));
+            let changes: Vec<(Option<((u32, u32), (u32, u32))>, String)> = edits.into_iter().map(|(rg, t)| (Some(rg), t)).collect();
+            let res = lsp.did_open(&uri, &other[m].text).and_then(|_| lsp.barrier(&main)).and_then(|_| lsp.did_change(&uri, &changes));
+            if let Err(e) = res {
+                r.fail(lsp_err(e, "open / change back of another layout"));
+                return;
+            }
+            r.label("visited-other-layout:changed-back-in-two-edits");
+        }
+    }
     let texts: BTreeMap<String, String> = rendered.iter().map(|x| (x.file.clone(), x.text.clone())).collect();
     let before_sources = to_sources(rendered);
     let Ok(before_doc) = doc_json(&before_sources) else {
